@@ -272,12 +272,16 @@ class Machine:
             else:
                 key = self.local_key_typed(thread, frame, p, (k.kind, k.cls))
                 copies.append((key, spec))
-        for sub in walk_own(fdef):
-            if isinstance(sub, ast.Assign):
-                for tg in sub.targets:
+        binders = sorted((sub for sub in walk_own(fdef) if isinstance(sub, (ast.Assign, ast.For))), key=lambda n: (n.lineno, n.col_offset))
+        for sub in binders:
+            for tg in (sub.targets if isinstance(sub, ast.Assign) else [sub.target]):
+                try:
                     self.predeclare(thread, frame, tg)
-            elif isinstance(sub, ast.For):
-                self.predeclare(thread, frame, sub.target)
+                except TranslationError:
+                    # a local the front end has no declaration for (renamed or newly introduced): its abstract type is
+                    # inferred from the expression it is bound to, evaluated dry over the locals declared so far
+                    if not (isinstance(sub, ast.Assign) and isinstance(tg, ast.Name) and self.infer_local(thread, frame, tg.id, sub.value)):
+                        raise
         entry = self.build_block(thread, fdef.body, frame, next_idx, {"break": None, "continue": None, "return": next_idx},
                                  handlers or [], list(locks), qual)
         if not copies:
@@ -287,6 +291,22 @@ class Machine:
         en.succ = entry
         en.exc = list(handlers or [])
         return en.idx
+
+    def infer_local(self, thread, frame, name, value_ast):
+        try:
+            k = self.kind_of(thread, value_ast, frame)
+        except (TranslationError, KeyError, AttributeError, TypeError):
+            return False
+        if k.kind in ("obj", "const"):
+            typ = ("static", None)
+        elif k.kind in ("ref", "set"):
+            typ = (k.kind, k.cls)
+        elif k.kind in ("bool", "int"):
+            typ = (k.kind, None)
+        else:
+            return False
+        self.local_key_typed(thread, frame, name, typ)
+        return True
 
     def local_key_typed(self, thread, frame, name, typ):
         key = "%s.f%d.%s" % (thread.name, frame.fid, name)
